@@ -826,21 +826,24 @@ fn c16_compression() {
     // Merkle-path compression alone: all index multisets of a small tree
     {
         use crate::hash::path_compression::{compress_merkle_proofs, decompress_merkle_proofs};
-        for h in 1..=4usize { for cap_height in 0..=h {
+        // leaf styles: pairwise distinct; periodic with period 4 and with period 2 (equal sub-trees at different positions, as a periodic or padded column
+        // gives: distinct nodes then carry EQUAL digests); constant
+        for style in 0..4usize { for h in 1..=4usize { for cap_height in 0..=h {
             let n = 1usize << h;
-            let leaves: Vec<Vec<F>> = (0..n).map(|i| vec![F::from_canonical_u64(i as u64 + 1); 5]).collect();
+            let leaves: Vec<Vec<F>> = (0..n).map(|i| vec![F::from_canonical_u64(match style { 0 => i, 1 => i % 4, 2 => i % 2, _ => 0 } as u64 + 1); 5]).collect();
             let tree = MerkleTree::<F, PoseidonHash>::new(leaves.clone(), cap_height);
             let mut s = 0xDEAD_BEEF_0BAD_F00Du64 ^ seed() ^ ((h * 16 + cap_height) as u64);
             let mut sets: Vec<Vec<usize>> = vec![(0..n).collect(), (0..n).rev().collect(), vec![0], vec![n - 1, n - 1, 0], (0..n).flat_map(|i| [i, i]).collect()];
             if h == 3 { sets.push(vec![4, 5, 1, 0, 5]); }
+            if h == 4 { sets.push(vec![0, 4]); sets.push(vec![0, 8]); sets.push(vec![1, 5, 9]); sets.push(vec![2, 6, 10, 14]); }
             for _ in 0..12 { s ^= s << 13; s ^= s >> 7; s ^= s << 17; let len = 1 + (s as usize) % (2 * n); let mut v = Vec::new(); let mut t = s; for _ in 0..len { t ^= t << 13; t ^= t >> 7; t ^= t << 17; v.push((t as usize) % n); } sets.push(v); }
             for idx in sets {
                 let proofs: Vec<_> = idx.iter().map(|&i| tree.prove(i)).collect();
                 cases += 1;
                 let r = catch_unwind(AssertUnwindSafe(|| { let c = compress_merkle_proofs(cap_height, &idx, &proofs); let lv: Vec<Vec<F>> = idx.iter().map(|&i| leaves[i].clone()).collect(); decompress_merkle_proofs::<F, PoseidonHash>(&lv, &idx, &c, h, cap_height) }));
-                match r { Ok(d) => if d != proofs { bad.push(format!("merkle path compression not lossless: h={h} cap={cap_height} indices={idx:?}")) }, Err(_) => bad.push(format!("merkle path (de)compression PANICKED: h={h} cap={cap_height} indices={idx:?}")) }
+                match r { Ok(d) => if d != proofs { bad.push(format!("merkle path compression not lossless: leaf style {style} h={h} cap={cap_height} indices={idx:?}")) }, Err(_) => bad.push(format!("merkle path (de)compression PANICKED: leaf style {style} h={h} cap={cap_height} indices={idx:?}")) }
             }
-        } }
+        } } }
     }
     finish("c16_compression", cases, bad);
 }
